@@ -1,6 +1,439 @@
-//! C16 — not implemented yet.
-use crate::report::{Cfg, Report};
+//! C16 — linear interpolation reproduces knots and honours the out-of-range mode (DESIGN §3 C16).
+//!
+//! Events: every `interp1d_linear` / `interp1d_linear_unchecked` call (value vector or panic).
+//! Oracle: knots bitwise; interior targets against the chord evaluated in double-double
+//! (`4ε(|y_k|+|y_{k+1}|)`) and between the neighbouring ordinates (4 ulp slack); outside the range
+//! the three modes on both sides separately (`C16.panic_mode.left/right`, `C16.fill.left/right`,
+//! `C16.extrapolate.left/right`), each under the regime `checked` / `unchecked`; the checked variant
+//! must panic on a descending pair or a length mismatch.
+use crate::gen::Rng;
+use crate::oracle::dd::Dd;
+use crate::report::{guard, jf, jnum, par_cases, same_bits, Cfg, Hasher, Report};
+use compute::functions::{interp1d_linear, interp1d_linear_unchecked, ExtrapolationMode};
+use serde_json::{json, Value};
 
-pub fn run(_cfg: &Cfg, rep: &mut Report) {
-    rep.inconclusive("monitor for C16 not implemented".to_string());
+const EPS: f64 = f64::EPSILON;
+
+#[derive(Clone, Copy, Debug, PartialEq)]
+enum Mode {
+    Panic,
+    Fill(f64, f64),
+    Extrapolate,
+}
+impl Mode {
+    fn lib(self) -> ExtrapolationMode {
+        match self {
+            Mode::Panic => ExtrapolationMode::Panic,
+            Mode::Fill(l, r) => ExtrapolationMode::Fill(l, r),
+            Mode::Extrapolate => ExtrapolationMode::Extrapolate,
+        }
+    }
+    fn name(self) -> &'static str {
+        match self {
+            Mode::Panic => "panic",
+            Mode::Fill(..) => "fill",
+            Mode::Extrapolate => "extrapolate",
+        }
+    }
+    fn js(self) -> Value {
+        match self {
+            Mode::Fill(l, r) => json!({"fill": [jnum(l), jnum(r)]}),
+            m => json!(m.name()),
+        }
+    }
+}
+
+fn call(checked: bool, x: &[f64], y: &[f64], t: &[f64], m: Mode) -> Result<Vec<f64>, String> {
+    guard(|| {
+        let v = if checked { interp1d_linear(x, y, t, m.lib()) } else { interp1d_linear_unchecked(x, y, t, m.lib()) };
+        v.v.clone()
+    })
+}
+fn vname(checked: bool) -> &'static str {
+    if checked {
+        "checked"
+    } else {
+        "unchecked"
+    }
+}
+
+#[derive(Clone, Copy, Debug, PartialEq)]
+enum Where {
+    Left,
+    Right,
+    Knot(usize),
+    Interior(usize), // x[k] < t < x[k+1]
+}
+
+fn locate(x: &[f64], t: f64) -> Where {
+    let n = x.len();
+    if t < x[0] {
+        return Where::Left;
+    }
+    if t > x[n - 1] {
+        return Where::Right;
+    }
+    // largest k with x[k] <= t
+    let (mut lo, mut hi) = (0usize, n - 1);
+    while lo < hi {
+        let mid = (lo + hi + 1) / 2;
+        if x[mid] <= t {
+            lo = mid;
+        } else {
+            hi = mid - 1;
+        }
+    }
+    if x[lo] == t {
+        Where::Knot(lo)
+    } else {
+        Where::Interior(lo)
+    }
+}
+
+/// value of the line through (xa,ya),(xb,yb) at t in double-double, and the line's scale there
+fn line_dd(xa: f64, ya: f64, xb: f64, yb: f64, t: f64) -> (f64, f64) {
+    let r = Dd::sum2(t, -xa) / Dd::sum2(xb, -xa);
+    let v = Dd::new(ya) + r * Dd::sum2(yb, -ya);
+    // scale of the line at t: the ordinates' magnitude times the extrapolation factor (the same
+    // |y_a|+|y_b| scale the interior tolerance uses, so 1 ulp beyond a knot is judged like 1 ulp inside)
+    let scale = (ya.abs() + yb.abs()) * r.f().abs().max((Dd::ONE - r).f().abs()).max(1.0);
+    (v.f(), scale)
+}
+
+fn zero_eq(a: f64, b: f64) -> bool {
+    same_bits(a, b) || (a == 0.0 && b == 0.0)
+}
+
+struct Knots {
+    x: Vec<f64>,
+    y: Vec<f64>,
+    xclass: &'static str,
+    yclass: &'static str,
+}
+
+fn gen_knots(rng: &mut Rng, lite: bool) -> Knots {
+    let n = if lite {
+        rng.usize(2, 8)
+    } else {
+        match rng.usize(0, 9) {
+            0 => 2,
+            1 => 3,
+            2..=4 => rng.usize(4, 12),
+            5..=7 => rng.usize(13, 60),
+            _ => rng.usize(61, 200),
+        }
+    };
+    let (xclass, ratio) = match rng.usize(0, 3) {
+        0 => ("spacing:uniform", 1.0),
+        1 => ("spacing:ratio<=1e2", 1e2),
+        _ => ("spacing:ratio<=1e6", 1e6),
+    };
+    let scale = 10f64.powf(rng.range(-3.0, 3.0));
+    let mut x = Vec::with_capacity(n);
+    let mut cur = rng.range(-100.0, 100.0) * scale;
+    x.push(cur);
+    for _ in 1..n {
+        let s = if ratio == 1.0 { 1.0 } else { rng.log_range(1.0, ratio) };
+        let mut nx = cur + s * scale;
+        if nx <= cur {
+            nx = cur.next_up();
+        }
+        x.push(nx);
+        cur = nx;
+    }
+    let (yclass, y): (&'static str, Vec<f64>) = match rng.usize(0, 5) {
+        0 | 1 => {
+            let s = 10f64.powf(rng.range(-2.0, 2.0));
+            ("y:gaussian", (0..n).map(|_| rng.normal() * s).collect())
+        }
+        2 => ("y:wide-magnitude", (0..n).map(|_| if rng.bool() { 1.0 } else { -1.0 } * 10f64.powf(rng.range(-150.0, 150.0))).collect()),
+        3 => {
+            // runs of equal ordinates and zeros: "between the ordinates" is then an equality
+            let mut v = Vec::with_capacity(n);
+            let mut c = rng.normal();
+            for _ in 0..n {
+                if rng.chance(0.4) {
+                    c = if rng.chance(0.3) { 0.0 } else { rng.normal() * 10.0 };
+                }
+                v.push(c);
+            }
+            ("y:flat-runs", v)
+        }
+        4 => ("y:integers", rng.ints(n, -1000, 1000)),
+        _ => {
+            let off = rng.normal() * 1e6;
+            ("y:offset", (0..n).map(|_| off + rng.normal()).collect())
+        }
+    };
+    Knots { x, y, xclass, yclass }
+}
+
+/// a few indices in 0..m always containing the first and the last
+fn pick_idx(rng: &mut Rng, m: usize, extra: usize) -> Vec<usize> {
+    if m <= extra + 2 {
+        return (0..m).collect();
+    }
+    let mut v = vec![0, m - 1];
+    for _ in 0..extra {
+        v.push(rng.usize(0, m - 1));
+    }
+    v.sort_unstable();
+    v.dedup();
+    v
+}
+
+fn one_set(cfg: &Cfg, rng: &mut Rng, rep: &mut Report) {
+    let k = gen_knots(rng, cfg.lite);
+    let (x, y) = (&k.x, &k.y);
+    let n = x.len();
+    rep.seen(k.xclass, 1);
+    rep.seen(k.yclass, 1);
+    rep.seen(if n == 2 { "knots:n=2" } else if n <= 12 { "knots:n=3..12" } else { "knots:n=13..200" }, 1);
+    rep.distinct(Hasher::new().fs(x).fs(y).finish(), n >= 3 && y.iter().any(|&v| v != y[0]));
+    let range = x[n - 1] - x[0];
+    let fills = {
+        let pool = [rng.normal() * 1e3, -7.25e200, 3.5e201, f64::INFINITY, f64::NEG_INFINITY, f64::NAN, 0.0, -0.0];
+        let l = if rng.chance(0.7) { rng.normal() * 1e3 + 12345.0 } else { *rng.choose(&pool) };
+        let mut r = if rng.chance(0.7) { rng.normal() * 1e3 - 54321.0 } else { *rng.choose(&pool) };
+        if same_bits(l, r) {
+            r = -98765.5;
+        }
+        Mode::Fill(l, r)
+    };
+    let modes = [Mode::Panic, fills, Mode::Extrapolate];
+
+    // ---- in-range targets ------------------------------------------------------------------
+    let mut tg: Vec<(f64, &'static str)> = Vec::new();
+    for i in pick_idx(rng, n, 8) {
+        tg.push((x[i], "target:knot"));
+    }
+    for i in pick_idx(rng, n - 1, 8) {
+        let m = 0.5 * x[i] + 0.5 * x[i + 1];
+        if m > x[i] && m < x[i + 1] {
+            tg.push((m, "target:midpoint"));
+        }
+        let u = x[i].next_up();
+        if u < x[i + 1] {
+            tg.push((u, "target:knot+1ulp"));
+        }
+        let d = x[i + 1].next_down();
+        if d > x[i] {
+            tg.push((d, "target:knot-1ulp"));
+        }
+        let t = x[i] + (x[i + 1] - x[i]) * rng.f64();
+        if t >= x[i] && t <= x[i + 1] {
+            tg.push((t, "target:random-interior"));
+        }
+    }
+    rng.shuffle(&mut tg);
+    let targets: Vec<f64> = tg.iter().map(|p| p.0).collect();
+    for p in &tg {
+        rep.seen(p.1, 1);
+    }
+    for checked in [true, false] {
+        for m in modes {
+            let regime = format!("{}:{}:in-range", vname(checked), m.name());
+            rep.case(&regime);
+            let got = call(checked, x, y, &targets, m);
+            let ctx = |extra: Value| json!({"variant": vname(checked), "mode": m.js(), "x": jf(x), "y": jf(y), "n": n, "detail": extra});
+            match got {
+                Err(msg) => {
+                    rep.check("C16.in_range.no_panic", &regime, false, || ctx(json!({"targets": jf(&targets), "panic": msg})));
+                }
+                Ok(v) => {
+                    rep.check("C16.in_range.no_panic", &regime, true, || json!(null));
+                    if !rep.check("C16.output_len", &regime, v.len() == targets.len(), || ctx(json!({"targets": targets.len(), "returned": v.len()}))) {
+                        continue;
+                    }
+                    for (j, &t) in targets.iter().enumerate() {
+                        match locate(x, t) {
+                            Where::Knot(i) => {
+                                rep.check("C16.knot.exact", &regime, zero_eq(v[j], y[i]), || ctx(json!({"target": t, "knot_index": i, "observed": jnum(v[j]), "expected": jnum(y[i])})));
+                            }
+                            Where::Interior(i) => {
+                                let (want, _) = line_dd(x[i], y[i], x[i + 1], y[i + 1], t);
+                                let tol = 4.0 * EPS * (y[i].abs() + y[i + 1].abs()) + 2e-323;
+                                let err = (v[j] - want).abs();
+                                rep.note_max("worst_ratio.interior_chord", err / tol);
+                                rep.check("C16.interior.chord", &regime, err <= tol, || {
+                                    ctx(json!({"target": t, "segment": i, "x_seg": [x[i], x[i+1]], "y_seg": [y[i], y[i+1]], "observed": jnum(v[j]), "expected": want, "abs_err": err, "tol": tol}))
+                                });
+                                let (lo, hi) = (y[i].min(y[i + 1]), y[i].max(y[i + 1]));
+                                let slack = 4.0 * EPS * y[i].abs().max(y[i + 1].abs()) + 2e-323;
+                                let out = (lo - v[j]).max(v[j] - hi).max(0.0);
+                                rep.note_max("worst_ratio.interior_between", out / slack);
+                                rep.check("C16.interior.between", &regime, out <= slack, || {
+                                    ctx(json!({"target": t, "segment": i, "y_seg": [y[i], y[i+1]], "observed": jnum(v[j]), "outside_by": out, "slack": slack}))
+                                });
+                            }
+                            _ => {}
+                        }
+                    }
+                }
+            }
+        }
+    }
+    rep.sample(|| json!({"n": n, "x_head": jf(&x[..n.min(4)]), "y_head": jf(&y[..n.min(4)]), "classes": [k.xclass, k.yclass], "in_range_targets": targets.len()}));
+
+    // ---- out-of-range targets, one side at a time -------------------------------------------
+    let fr = rng.log_range(1e-3, 0.5);
+    let left: Vec<(f64, &'static str)> = vec![
+        (x[0].next_down(), "target:left:1ulp"),
+        (x[0] - fr * range, "target:left:fraction-of-range"),
+        (x[0] - range, "target:left:1x-range"),
+        (x[0] - 10.0 * range, "target:left:10x-range"),
+    ];
+    let right: Vec<(f64, &'static str)> = vec![
+        (x[n - 1].next_up(), "target:right:1ulp"),
+        (x[n - 1] + fr * range, "target:right:fraction-of-range"),
+        (x[n - 1] + range, "target:right:1x-range"),
+        (x[n - 1] + 10.0 * range, "target:right:10x-range"),
+    ];
+    for (side, list) in [("left", &left), ("right", &right)] {
+        let list: Vec<(f64, &'static str)> = list.iter().cloned().filter(|p| if side == "left" { p.0 < x[0] } else { p.0 > x[n - 1] }).collect();
+        for p in &list {
+            rep.seen(p.1, 1);
+        }
+        let ts: Vec<f64> = list.iter().map(|p| p.0).collect();
+        for checked in [true, false] {
+            let vreg = vname(checked);
+            let ctx = |m: Mode, extra: Value| json!({"variant": vreg, "mode": m.js(), "side": side, "x": jf(x), "y": jf(y), "n": n, "detail": extra});
+            // Panic mode: one call per target so every distance class is judged on its own
+            // (Miri smoke: one target per side — a panic costs ~0.1 s there)
+            let plist: &[f64] = if cfg.miri() { &ts[..1] } else { &ts };
+            for &t in plist {
+                rep.case(&format!("{}:panic:{}", vreg, side));
+                let got = call(checked, x, y, &[t], Mode::Panic);
+                let a = format!("C16.panic_mode.{}", side);
+                rep.check(&a, vreg, got.is_err(), || ctx(Mode::Panic, json!({"target": t, "beyond_by": if side == "left" { x[0] - t } else { t - x[n-1] }, "observed": got.as_ref().map(|v| jf(v)).unwrap_or(json!("panic")), "expected": "panic"})));
+            }
+            // Fill mode
+            rep.case(&format!("{}:fill:{}", vreg, side));
+            let (fl, frr) = match fills {
+                Mode::Fill(l, r) => (l, r),
+                _ => unreachable!(),
+            };
+            let want = if side == "left" { fl } else { frr };
+            match call(checked, x, y, &ts, fills) {
+                Err(msg) => {
+                    rep.check("C16.fill.no_panic", &format!("{}:{}", vreg, side), false, || ctx(fills, json!({"targets": jf(&ts), "panic": msg})));
+                }
+                Ok(v) => {
+                    rep.check("C16.fill.no_panic", &format!("{}:{}", vreg, side), true, || json!(null));
+                    if rep.check("C16.output_len", &format!("{}:fill:{}", vreg, side), v.len() == ts.len(), || ctx(fills, json!({"targets": ts.len(), "returned": v.len()}))) {
+                        let a = format!("C16.fill.{}", side);
+                        for (j, &t) in ts.iter().enumerate() {
+                            rep.check(&a, vreg, same_bits(v[j], want), || ctx(fills, json!({"target": t, "observed": jnum(v[j]), "expected": jnum(want)})));
+                        }
+                    }
+                }
+            }
+            // Extrapolate mode
+            rep.case(&format!("{}:extrapolate:{}", vreg, side));
+            match call(checked, x, y, &ts, Mode::Extrapolate) {
+                Err(msg) => {
+                    rep.check("C16.extrapolate.no_panic", &format!("{}:{}", vreg, side), false, || ctx(Mode::Extrapolate, json!({"targets": jf(&ts), "panic": msg})));
+                }
+                Ok(v) => {
+                    rep.check("C16.extrapolate.no_panic", &format!("{}:{}", vreg, side), true, || json!(null));
+                    if rep.check("C16.output_len", &format!("{}:extrapolate:{}", vreg, side), v.len() == ts.len(), || ctx(Mode::Extrapolate, json!({"targets": ts.len(), "returned": v.len()}))) {
+                        let (ia, ib) = if side == "left" { (0, 1) } else { (n - 2, n - 1) };
+                        let a = format!("C16.extrapolate.{}", side);
+                        for (j, &t) in ts.iter().enumerate() {
+                            let (want, scale) = line_dd(x[ia], y[ia], x[ib], y[ib], t);
+                            let tol = 1e-12 * scale + 2e-323;
+                            let err = (v[j] - want).abs();
+                            rep.note_max(&format!("worst_ratio.extrapolate_{}", side), err / tol);
+                            rep.check(&a, vreg, err <= tol, || ctx(Mode::Extrapolate, json!({"target": t, "segment": [[x[ia], y[ia]], [x[ib], y[ib]]], "observed": jnum(v[j]), "expected": want, "abs_err": err, "tol": tol})));
+                        }
+                    }
+                }
+            }
+        }
+    }
+
+    // ---- checked variant must reject unsorted abscissae and mismatched lengths ------------------
+    let inr: Vec<f64> = vec![x[0], 0.5 * x[0] + 0.5 * x[n - 1], x[n - 1]];
+    let pos_classes: Vec<(&'static str, usize)> = if n == 2 {
+        vec![("unsorted:first-pair", 0)]
+    } else {
+        let mut v = vec![("unsorted:first-pair", 0), ("unsorted:last-pair", n - 2)];
+        if n >= 4 {
+            v.push(("unsorted:middle-pair", rng.usize(1, n - 3)));
+        }
+        v
+    };
+    let (cls, i) = *rng.choose(&pos_classes);
+    let mut xs = x.clone();
+    xs.swap(i, i + 1); // strictly increasing before, so (i, i+1) is now a strictly descending pair
+    let m = if rng.bool() { Mode::Extrapolate } else { fills };
+    rep.case(&format!("checked:{}", cls));
+    rep.seen("checked:unsorted", 1);
+    let got = call(true, &xs, y, &inr, m);
+    rep.check("C16.checked.rejects_unsorted", cls, got.is_err(), || json!({"x": jf(&xs), "y": jf(y), "descending_pair_at": i, "pair": [xs[i], xs[i+1]], "mode": m.js(), "targets": jf(&inr), "observed": got.as_ref().map(|v| jf(v)).unwrap_or(json!("panic")), "expected": "panic"}));
+    if !cfg.miri() || rng.chance(0.3) {
+        let longer = rng.bool();
+        let cls = if longer { "mismatch:y-longer" } else { "mismatch:y-shorter" };
+        let mut ys = y.clone();
+        if longer {
+            ys.push(1.5);
+        } else {
+            ys.pop();
+        }
+        rep.case(&format!("checked:{}", cls));
+        let got = call(true, x, &ys, &inr, m);
+        rep.check("C16.checked.rejects_mismatch", cls, got.is_err(), || json!({"x_len": n, "y_len": ys.len(), "x": jf(x), "y": jf(&ys), "mode": m.js(), "targets": jf(&inr), "observed": got.as_ref().map(|v| jf(v)).unwrap_or(json!("panic")), "expected": "panic"}));
+    }
+}
+
+pub fn run(cfg: &Cfg, rep: &mut Report) {
+    rep.rule = "random knot sets: n in 2..200, strictly increasing abscissae (uniform / spacing ratios <= 1e2 / <= 1e6, scale 1e-3..1e3), ordinates gaussian / |y| in 1e-150..1e150 / flat runs with zeros / integers / offset 1e6; per set: in-range targets (knots incl. first and last, midpoints, knot+-1ulp, random interior) x 3 modes x 2 variants, then per side 4 out-of-range targets (1 ulp, fraction of range, 1x, 10x range) x 3 modes x 2 variants, then one unsorted and one length-mismatched call of the checked variant. one evaluation = one library call. non-trivial = n >= 3 and ordinates not all equal; distinct by bits of (x, y)".into();
+    rep.assume("abscissae strictly increasing and finite, ordinates finite with |y| <= 1e150 (chords cannot overflow); ties in the abscissae are neither required to be accepted nor rejected");
+    rep.assume("a knot ordinate of -0.0 may be returned as +0.0 (numerically equal)");
+    rep.assume("fill values may be any f64 incl. inf/NaN and are compared bitwise (all NaNs identified)");
+    rep.assume("the unchecked variant's behaviour on unsorted / mismatched input is not judged");
+    let nsets = cfg.pick(1500, 40000, 3);
+    par_cases(cfg, rep, 1, nsets, |_i, rng, rep| one_set(cfg, rng, rep));
+    // hand-written minimal cases (the DESIGN probe): x = [0,1,2], y = [0,10,20]
+    par_cases(cfg, rep, 2, 1, |_i, _rng, rep| {
+        let (x, y) = ([0.0, 1.0, 2.0], [0.0, 10.0, 20.0]);
+        for checked in [true, false] {
+            let vreg = vname(checked);
+            rep.case(&format!("{}:fill:right", vreg));
+            let got = call(checked, &x, &y, &[3.0], Mode::Fill(-1.0, -2.0));
+            rep.check("C16.fill.right", vreg, matches!(&got, Ok(v) if v.len() == 1 && same_bits(v[0], -2.0)), || json!({"x": jf(&x), "y": jf(&y), "target": 3.0, "mode": {"fill": [-1.0, -2.0]}, "observed": got.as_ref().map(|v| jf(v)).unwrap_or(json!("panic")), "expected": -2.0}));
+            rep.case(&format!("{}:panic:right", vreg));
+            let got = call(checked, &x, &y, &[3.0], Mode::Panic);
+            rep.check("C16.panic_mode.right", vreg, got.is_err(), || json!({"x": jf(&x), "y": jf(&y), "target": 3.0, "mode": "panic", "observed": got.as_ref().map(|v| jf(v)).unwrap_or(json!("panic")), "expected": "panic"}));
+            rep.case(&format!("{}:fill:left", vreg));
+            let got = call(checked, &x, &y, &[-1.0], Mode::Fill(-1.0, -2.0));
+            rep.check("C16.fill.left", vreg, matches!(&got, Ok(v) if v.len() == 1 && same_bits(v[0], -1.0)), || json!({"x": jf(&x), "y": jf(&y), "target": -1.0, "observed": got.as_ref().map(|v| jf(v)).unwrap_or(json!("panic")), "expected": -1.0}));
+            // empty target list: empty result, no panic, in every mode
+            for m in [Mode::Panic, Mode::Fill(1.0, 2.0), Mode::Extrapolate] {
+                let regime = format!("{}:{}:in-range", vreg, m.name());
+                rep.case(&regime);
+                let got = call(checked, &x, &y, &[], m);
+                rep.check("C16.output_len", &regime, matches!(&got, Ok(v) if v.is_empty()), || json!({"targets": [], "observed": got.as_ref().map(|v| jf(v)).unwrap_or(json!("panic"))}));
+            }
+        }
+    });
+    for v in ["checked", "unchecked"] {
+        for m in ["panic", "fill", "extrapolate"] {
+            rep.require(&format!("{}:{}:in-range", v, m), 1);
+            rep.require(&format!("{}:{}:left", v, m), 1);
+            rep.require(&format!("{}:{}:right", v, m), 1);
+        }
+    }
+    rep.require("checked:unsorted", 1);
+    if !cfg.lite {
+        for r in [
+            "checked:unsorted:first-pair", "checked:unsorted:last-pair", "checked:unsorted:middle-pair", "checked:mismatch:y-longer", "checked:mismatch:y-shorter",
+            "target:knot", "target:midpoint", "target:knot+1ulp", "target:knot-1ulp", "target:random-interior",
+            "target:left:1ulp", "target:left:10x-range", "target:right:1ulp", "target:right:10x-range",
+            "spacing:uniform", "spacing:ratio<=1e2", "spacing:ratio<=1e6", "knots:n=2", "knots:n=3..12", "knots:n=13..200",
+            "y:gaussian", "y:wide-magnitude", "y:flat-runs", "y:integers", "y:offset",
+        ] {
+            rep.require(r, 1);
+        }
+    }
 }
